@@ -150,73 +150,59 @@ theorem rl_pEnd (c : SCfg) (s : SState) (x : Ev) (hx : isRunEv x) :
 
 /-- owing more BRACKET events changes no run-level count -/
 theorem rl_owe_brackets (s s' : SState) (x : Ev) (hx : isRunEv x) (l : List Ev) (hl : ∀ e ∈ l, isBr e = true)
-    (ho : s'.out = s.out) (he : s'.expect = s.expect ++ l.map Exp.one) : cnt x (hist s') = cnt x (hist s) := by
-  unfold hist; rw [ho, he, expEvents_append, expEvents_map_one]
+    (ho : s'.out = s.out) (he : expEvents s'.expect = expEvents s.expect ++ l) : cnt x (hist s') = cnt x (hist s) := by
+  unfold hist; rw [ho, he]
   simp only [cnt_append]
   have := cnt_brackets x hx l hl
   omega
 
-theorem notifC_fields (s : SState) (id : Nat) (f r : Bool) (nid : Nat) (f' r' : Bool)
-    (rest : List (Nat × ScenKey × Bool × Bool)) :
-    (notifC (notif1 s) id f r nid f' r' rest).out = s.out ∧ (notifC (notif1 s) id f r nid f' r' rest).br = s.br ∧
-    (notifC (notif1 s) id f r nid f' r' rest).expect = s.expect := by
-  have h1 := ip_fields s [.draining] "notification drained"
-  have hA : (notifA (notif1 s) id f r nid f' r').out = s.out ∧ (notifA (notif1 s) id f r nid f' r').br = s.br ∧
-      (notifA (notif1 s) id f r nid f' r').expect = s.expect := by
-    unfold notifA notif1
-    split
-    · exact h1
-    · exact h1
-  unfold notifC SState.checkExpectDone
-  split
-  · exact ⟨hA.1, hA.2.1, hA.2.2⟩
-  · exact ⟨hA.1, hA.2.1, hA.2.2⟩
+theorem rl_notif (c : SCfg) (s : SState) (id : Nat) (f r : Bool) (x : Ev) (hx : isRunEv x) (hs : s.dis = [])
+    (hc : (stepL c s (.notif id f r)).dis = []) : cnt x (hist (stepL c s (.notif id f r))) = cnt x (hist s) := by
+  cases hn : s.notifs with
+  | nil =>
+    exfalso
+    cases hp : s.phase <;> simp [stepL, SState.inPhase, SState.note, hp, hn, hs] at hc
+  | cons y rest =>
+    obtain ⟨nid, k, f', r'⟩ := y
+    cases he : expEmpty s.expect with
+    | false =>
+      exfalso
+      cases hp : s.phase <;> cases hcnd : (nid == id && f' == f && r' == r && !s.tripDue) <;>
+        cases hsf : scenarioFinished s.br k r (c.nRule k.feat (k.rule.getD 0)) (c.nFeat k.feat) <;>
+        simp [stepL, SState.inPhase, SState.note, SState.checkExpectDone, hp, hn, hcnd, he, hsf, hs] at hc
+    | true =>
+      have hee := expEvents_empty _ he
+      cases hsf : scenarioFinished s.br k r (c.nRule k.feat (k.rule.getD 0)) (c.nFeat k.feat) with
+      | none =>
+        exfalso
+        cases hp : s.phase <;> cases hcnd : (nid == id && f' == f && r' == r && !s.tripDue) <;>
+          simp [stepL, SState.inPhase, SState.note, SState.checkExpectDone, hp, hn, hcnd, he, hsf, hs] at hc
+      | some p =>
+        obtain ⟨br', evs⟩ := p
+        refine rl_owe_brackets s _ x hx evs (scenarioFinished_isBr _ _ _ _ _ _ _ hsf) ?_ ?_
+        · cases hp : s.phase <;> cases hcnd : (nid == id && f' == f && r' == r && !s.tripDue) <;>
+            simp [stepL, SState.inPhase, SState.note, SState.checkExpectDone, hp, hn, hcnd, he, hsf, hs] at hc ⊢
+        · rw [hee]
+          cases hp : s.phase <;> cases hcnd : (nid == id && f' == f && r' == r && !s.tripDue) <;>
+            simp [stepL, SState.inPhase, SState.note, SState.checkExpectDone, hp, hn, hcnd, he, hsf, hs, expEvents_map_one] at hc ⊢
 
-theorem rl_notif (c : SCfg) (s : SState) (id : Nat) (f r : Bool) (x : Ev) (hx : isRunEv x) :
-    cnt x (hist (stepL c s (.notif id f r))) = cnt x (hist s) := by
-  rw [notif_eq]
-  have h1 := ip_fields s [.draining] "notification drained"
-  unfold notifR
-  split
-  · -- nothing pending: only a note
-    have : hist ((notif1 s).note .B s!"notification {id} drained but none pending") = hist s := by
-      simp [hist, SState.note, notif1, h1]
-    rw [this]
-  · rename_i nid k f' r' rest hn
-    obtain ⟨c1, c2, c3⟩ := notifC_fields s id f r nid f' r' rest
-    unfold notifD
-    rw [c2]
-    cases hsf : scenarioFinished s.br k r (c.nRule k.feat (k.rule.getD 0)) (c.nFeat k.feat) with
-    | none => simp only [hist, SState.note, c1, c3]
-    | some p =>
-      obtain ⟨br', evs⟩ := p
-      exact rl_owe_brackets s _ x hx evs (scenarioFinished_isBr _ _ _ _ _ _ _ hsf) (by simp [c1]) (by simp [c3])
-
-theorem rl_disp (c : SCfg) (s : SState) (n : Nat) (sl : Slots) (x : Ev) :
-    cnt x (hist (stepL c s (.disp n sl))) = cnt x (hist s) := by
-  have h1 := ip_fields s [.afterGet2] "dispatch"
-  have hd1 : (disp1 s).out = s.out ∧ (disp1 s).expect = s.expect := by
-    unfold disp1 SState.checkExpectDone; split <;> simp [SState.note, h1]
-  have hd4 := chk_fields3 (disp3 s) (n == (disp3 s).batch.length) .K s!"dispatched {n}, batch {(disp3 s).batch.length}"
-  have hd5 := chk_fields3 (disp4 s n) (sl == (disp4 s n).slots.onDispatch (disp4 s n).batch.length) .K
-    s!"slots after dispatch {repr sl}, model {repr ((disp4 s n).slots.onDispatch (disp4 s n).batch.length)}"
+theorem rl_disp (c : SCfg) (s : SState) (n : Nat) (sl : Slots) (x : Ev) (hs : s.dis = [])
+    (hc : (stepL c s (.disp n sl)).dis = []) : cnt x (hist (stepL c s (.disp n sl))) = cnt x (hist s) := by
   have : hist (stepL c s (.disp n sl)) = hist s := by
-    rw [disp_eq]
-    show (disp5 s n sl).out ++ expEvents (disp5 s n sl).expect = _
-    have e1 : (disp5 s n sl).out = s.out := by
-      unfold disp5; rw [hd5.1]; unfold disp4; rw [hd4.1]; exact hd1.1
-    have e2 : (disp5 s n sl).expect = s.expect := by
-      unfold disp5; rw [hd5.2.2]; unfold disp4; rw [hd4.2.2]; exact hd1.2
-    rw [e1, e2]; rfl
+    rw [disp_eq] at hc ⊢
+    unfold dispR disp5 disp4 disp3 disp1 chk at hc ⊢
+    cases hp : s.phase <;> cases he : expEmpty s.expect <;> cases h1 : (n == s.batch.length) <;>
+      cases h2 : (sl == s.slots.onDispatch s.batch.length) <;>
+      simp [SState.inPhase, SState.checkExpectDone, SState.note, hp, he, h1, h2, hs, hist, expEvents_empty] at hc ⊢
+    all_goals simp [expEvents_empty _ he, expEvents]
   rw [this]
 
-theorem rl_hookRestore (c : SCfg) (s : SState) (x : Ev) :
-    cnt x (hist (stepL c s .hookRestore)) = cnt x (hist s) := by
-  have h1 := ip_fields s [.exiting] "panic hook restored"
+theorem rl_hookRestore (c : SCfg) (s : SState) (x : Ev) (hs : s.dis = [])
+    (hc : (stepL c s .hookRestore).dis = []) : cnt x (hist (stepL c s .hookRestore)) = cnt x (hist s) := by
   have : hist (stepL c s .hookRestore) = hist s := by
-    simp only [stepL, hist, SState.checkExpectDone]
-    repeat' split
-    all_goals simp [SState.note, h1]
+    cases hp : s.phase <;> cases he : expEmpty s.expect <;> cases hh : s.hookTaken <;>
+      simp [stepL, SState.inPhase, SState.note, SState.checkExpectDone, hp, he, hh, hs, hist] at hc ⊢
+    all_goals simp [expEvents_empty _ he, expEvents]
   rw [this]
 
 theorem rl_idle (c : SCfg) (s : SState) (fin sl : Bool) (x : Ev) (hx : isRunEv x) :
@@ -233,5 +219,200 @@ theorem rl_idle (c : SCfg) (s : SState) (fin sl : Bool) (x : Ev) (hx : isRunEv x
     have h2 := cnt_brackets x hx _ hb.2
     simp only [expEvents, cnt_append, append_nil]
     omega
+
+theorem rl_get2 (c : SCfg) (s : SState) (t2 : Nat) (slots : Slots) (got : List Nat) (sleep : Bool) (running : Nat)
+    (x : Ev) (hx : isRunEv x) (hs : s.dis = []) (hc : (stepL c s (.get2 t2 slots got sleep running)).dis = []) :
+    cnt x (hist (stepL c s (.get2 t2 slots got sleep running))) = cnt x (hist s) := by
+  rw [get2_eq] at hc ⊢
+  have hcc : (get2a s).dis <+: (get2c s).dis := by
+    unfold get2c; exact ced_prefix ({ get2a s with phase := .afterGet2 } : SState) _
+  have hcd : (get2c s).dis <+: (get2d s slots).dis := by
+    unfold get2d; split
+    · exact List.prefix_refl _
+    · exact note_prefix _ _ _
+  have hde : (get2d s slots).dis <+: (get2e s slots running).dis := by
+    unfold get2e; split
+    · exact List.prefix_refl _
+    · exact note_prefix _ _ _
+  have her : (get2e s slots running).dis <+: (get2R s t2 slots got sleep running).dis := by
+    unfold get2R
+    simp only
+    split
+    · split
+      · exact List.prefix_refl _
+      · exact note_prefix _ _ _
+    · exact note_prefix _ _ _
+  have hE : (get2e s slots running).dis = [] := by rw [hc] at her; exact List.prefix_nil.mp her
+  have hD : (get2d s slots).dis = [] := by rw [hE] at hde; exact List.prefix_nil.mp hde
+  have hC : (get2c s).dis = [] := by rw [hD] at hcd; exact List.prefix_nil.mp hcd
+  have hA : (get2a s).dis = [] := by rw [hC] at hcc; exact List.prefix_nil.mp hcc
+  -- `get2a` leaves `out` / `expect` alone
+  have fa : (get2a s).out = s.out ∧ (get2a s).expect = s.expect := by
+    unfold get2a SState.inPhase
+    simp only
+    repeat' split
+    all_goals simp [SState.note]
+  -- the expectation check passed: nothing was owed
+  have hemp : expEmpty s.expect = true := by
+    cases he : expEmpty s.expect with
+    | true => rfl
+    | false =>
+      exfalso
+      unfold get2c SState.checkExpectDone at hC
+      simp only [fa.2, he, Bool.false_eq_true, if_false, SState.note] at hC
+      simp at hC
+  have fc : (get2c s).out = s.out ∧ (get2c s).expect = [] := by
+    unfold get2c SState.checkExpectDone
+    simp only [fa.2, hemp, if_true, fa.1, and_self]
+  have eD : get2d s slots = get2c s := by
+    unfold get2d at hD ⊢
+    split
+    · rfl
+    · rename_i hne; rw [if_neg hne] at hD; simp [SState.note] at hD
+  have eE : get2e s slots running = get2c s := by
+    unfold get2e at hE ⊢
+    split
+    · exact eD
+    · rename_i hne; rw [if_neg hne] at hE; simp [SState.note] at hE
+  have hee := expEvents_empty _ hemp
+  unfold get2R at hc ⊢
+  simp only [eE] at hc ⊢
+  split
+  · rename_i hg
+    refine rl_owe_brackets s _ x hx _ (startScenarios_isBr (get2c s).br
+      (getBatch (get2ready (get2c s) t2 got) (get2c s).slots.ask (get2c s).q).1) ?_ ?_
+    · split <;> simp [SState.note, fc.1]
+    · rw [hee]
+      split <;> simp [SState.note, fc.2, expEvents_append, expEvents_map_one, expEvents]
+  · rename_i hg
+    rw [if_neg hg] at hc
+    simp [SState.note] at hc
+
+/-! ### the invariant -/
+
+/-- before the run (0), inside the loop (1), after the exit decision (2) -/
+def pc : Phase → Nat
+  | .init => 0
+  | .exiting | .exited => 2
+  | _ => 1
+
+def RInv (s : SState) : Prop :=
+  cnt .started (hist s) = (if pc s.phase = 0 then 0 else 1) ∧
+  cnt .finished (hist s) = (if pc s.phase = 2 then 1 else 0)
+
+theorem rinv_init : RInv ({} : SState) := by simp [RInv, hist, cnt, expEvents, pc]
+
+theorem rinv_step (c : SCfg) (s : SState) (l : Label) (h : RInv s) (hc : Clean0 (stepL c s l) = true) :
+    RInv (stepL c s l) := by
+  have hs0 : Clean0 s = true := clean0_step_mono c s l hc
+  have hs : s.dis = [] := by simpa [Clean0] using hs0
+  have hd : (stepL c s l).dis = [] := by simpa [Clean0] using hc
+  have hS : isRunEv .started := Or.inl rfl
+  have hF : isRunEv .finished := Or.inr rfl
+  have keep : ∀ s' : SState, (∀ x, isRunEv x → cnt x (hist s') = cnt x (hist s)) → pc s'.phase = pc s.phase → RInv s' := by
+    intro s' hcnt hp
+    unfold RInv
+    rw [hcnt _ hS, hcnt _ hF, hp]
+    exact h
+  have same3 : ∀ s' : SState, Same3 s s' → pc s'.phase = pc s.phase → RInv s' :=
+    fun s' h3 hp => keep s' (fun x _ => by rw [hist_same3 s s' h3]) hp
+  have ph : ∀ {s' : SState}, vw s' = vw s → pc s'.phase = pc s.phase := by
+    intro s' hv
+    have : s'.phase = s.phase := congrArg V.phase hv
+    rw [this]
+  cases l with
+  | other => exact same3 _ (s3_other c s) (ph (vw_other c s))
+  | verdict b x y z => exact same3 _ (s3_verdict c s b x y z) (ph (vw_verdict c s b x y z))
+  | rx e => exact same3 _ (s3_rx c s e) (ph (vw_rx c s e))
+  | cbIn a b t => exact same3 _ (s3_cbIn c s a b t) (ph (vw_cbIn c s a b t))
+  | cbOut a b t => exact same3 _ (s3_cbOut c s a b t) (ph (vw_cbOut c s a b t))
+  | envMove => exact same3 _ (s3_env c s) (ph (vw_env c s))
+  | pPend => exact same3 _ (s3_pPend c s) (ph (vw_pPend c s))
+  | pWake => exact same3 _ (s3_pWake c s) (ph (vw_pWake c s))
+  | pOk f => exact same3 _ (s3_pOk c s f) (ph (vw_pOk c s f))
+  | pFinish => exact same3 _ (s3_pFinish c s) (ph (vw_pFinish c s))
+  | ins t a b => exact same3 _ (s3_ins c s t a b) (ph (vw_ins c s t a b))
+  | brk => exact same3 _ (s3_brk c s) (ph (vw_brk c s hs hd).2)
+  | poll =>
+    refine same3 _ (s3_poll c s) ?_
+    have : (stepL c s .poll).phase = s.phase := congrArg V.phase (vw_poll c s)
+    rw [this]
+  | endA id f r t =>
+    refine same3 _ (s3_endA c s id f r t) ?_
+    have : (stepL c s (.endA id f r t)).phase = s.phase := congrArg V.phase (vw_endA c s id f r t hs hd)
+    rw [this]
+  | get1 t ask ns nc =>
+    obtain ⟨hp, hv⟩ := vw_get1 c s t ask ns nc hs hd
+    refine same3 _ (s3_get1 c s t ask ns nc) ?_
+    have : (stepL c s (.get1 t ask ns nc)).phase = .afterGet1 := congrArg V.phase hv
+    rw [this]; rcases hp with hp | hp <;> simp [hp, pc]
+  | idleYield =>
+    obtain ⟨hp, hv⟩ := vw_idleYield c s hs hd
+    refine same3 _ (s3_idleYield c s) ?_
+    have : (stepL c s .idleYield).phase = .idle2 := congrArg V.phase hv
+    rw [this, hp]; simp [pc]
+  | idleSlept =>
+    obtain ⟨hp, hv⟩ := vw_idleSlept c s hs hd
+    refine same3 _ (s3_idleSlept c s) ?_
+    have : (stepL c s .idleSlept).phase = .idle2 := congrArg V.phase hv
+    rw [this, hp]; simp [pc]
+  | idleContinue =>
+    obtain ⟨hp, _, hv⟩ := vw_idleContinue c s hs hd
+    refine same3 _ (s3_idleContinue c s) ?_
+    have : (stepL c s .idleContinue).phase = .loopTop := congrArg V.phase hv
+    rw [this]; rcases hp with hp | hp <;> simp [hp, pc]
+  | cons got =>
+    obtain ⟨hp, _, hv⟩ := vw_cons c s got hs hd
+    refine same3 _ (s3_cons c s got) ?_
+    have : (stepL c s (.cons got)).phase = .draining := congrArg V.phase hv
+    rw [this, hp]; simp [pc]
+  | exit =>
+    obtain ⟨hp, _, hv⟩ := vw_exit c s hs hd
+    refine same3 _ (s3_exit c s) ?_
+    have : (stepL c s .exit).phase = .exited := congrArg V.phase hv
+    rw [this, hp]; simp [pc]
+  | tx e => exact keep _ (fun x hx => rl_tx c s e x hx hs hd) (ph (vw_tx c s e))
+  | pErr => exact keep _ (fun x hx => rl_pErr c s x hx) (ph (vw_pErr c s))
+  | pEnd => exact keep _ (fun x hx => rl_pEnd c s x hx) (ph (vw_pEnd c s))
+  | notif id f r => exact keep _ (fun x hx => rl_notif c s id f r x hx hs hd) (ph (vw_notif c s id f r))
+  | hookRestore =>
+    refine keep _ (fun x _ => rl_hookRestore c s x hs hd) ?_
+    have : (stepL c s .hookRestore).phase = s.phase := congrArg V.phase (vw_hookRestore c s hs hd).2
+    rw [this]
+  | disp n sl =>
+    obtain ⟨hp, hv⟩ := vw_disp c s n sl hs hd
+    refine keep _ (fun x _ => rl_disp c s n sl x hs hd) ?_
+    have : (stepL c s (.disp n sl)).phase = .selecting := congrArg V.phase hv
+    rw [this, hp]; simp [pc]
+  | get2 t2 slots got sleep running =>
+    have hp := get2_phase c s t2 slots got sleep running hs hd
+    have e1 := (get2_fields c s t2 slots got sleep running).1
+    rw [← get2_eq c] at e1
+    refine keep _ (fun x hx => rl_get2 c s t2 slots got sleep running x hx hs hd) ?_
+    rw [e1]; rcases hp with hp | hp | hp <;> simp [hp, pc]
+  | hookTake =>
+    obtain ⟨hp, hv⟩ := vw_hookTake c s hs hd
+    have e1 : (stepL c s .hookTake).phase = .loopTop := congrArg V.phase hv
+    unfold RInv at h ⊢
+    rw [rl_hookTake c s .started, rl_hookTake c s .finished, e1, h.1, h.2, hp]
+    simp [pc, cnt]
+  | idle fin sl =>
+    obtain ⟨hp, _, _, _, hv⟩ := vw_idle c s fin sl hs hd
+    have e1 : (stepL c s (.idle fin sl)).phase = if fin then .exiting else .idle1 := congrArg V.phase hv
+    unfold RInv at h ⊢
+    rw [rl_idle c s fin sl .started hS, rl_idle c s fin sl .finished hF, e1, h.1, h.2, hp]
+    cases fin <;> simp [pc, cnt]
+
+theorem rinv_accept (c : SCfg) (ls : List Label) (hc : Clean0 (accept c ls) = true) : RInv (accept c ls) := by
+  have gen : ∀ (ls : List Label) (s : SState), RInv s → Clean0 (ls.foldl (stepL c) s) = true →
+      RInv (ls.foldl (stepL c) s) := by
+    intro ls
+    induction ls with
+    | nil => intro s h _; exact h
+    | cons l rest ih =>
+      intro s h hc
+      simp only [foldl_cons] at hc ⊢
+      exact ih _ (rinv_step c s l h (clean0_foldl_mono c rest _ hc)) hc
+  exact gen ls {} rinv_init hc
 
 end Cuke.SchedRunLevel
